@@ -24,7 +24,7 @@ generator_never_done | checker_never_done, plus data_width / random_addr / rando
 `explained_by_byte_mask` says whether the observed address is exactly what a mask of (end - base - 1) in BYTES applied to the WORD
 index gives (the one deviation bist.py shows on ports wider than a byte).
 
-Not covered: run_cascade_in low, `reset`, restarting a core, base/length that are not word multiples, length 0, ranges that are not
+Not covered: run_cascade_in low, restarting the generator (the checker is reset and run a second time in the *-rerun-* configurations), base/length that are not word multiples, length 0, ranges that are not
 powers of two (outside the stated contract).
 """
 import time
@@ -119,7 +119,7 @@ def model_selftest(cycles=400):
 
 class BistHarness(Harness):
     def __init__(self, dw=8, cfgs=None, D=0, faults="all", wmin=3, rmin=6, qmax=3, flipmode="spread", port="native",
-                 ranges=(1, 2), region="all", bases=None, modes=None, lmax=None):
+                 ranges=(1, 2), region="all", bases=None, modes=None, lmax=None, rerun=False):
         """parameter tuples offered as first choice: `cfgs` (explicit list of (base, range, length in words, random_data, random_addr)) or
         param_tuples(ranges, region, bases, modes, lmax)"""
         from migen import Module
@@ -160,6 +160,9 @@ class BistHarness(Harness):
         for core in (gen, chk):
             self.i_par.append((ii[core.base], ii[core.end], ii[core.length], ii[core.random_data], ii[core.random_addr]))
         self.i_gstart = ii[gen.start]; self.i_cstart = ii[chk.start]
+        # rerun: after its verdict the checker is reset (its `reset` input, as the CSR wrapper's reset register does) and started again over the
+        # same memory: the second verdict must again be the number of differing positions (sequences restart with every run)
+        self.rerun = rerun; self.i_creset = ii.get(chk.reset)
         self.r_gdone = c.rd(gen.done); self.r_cdone = c.rd(chk.done); self.r_errors = c.rd(chk.errors)
         self.base = list(c.base_inputs)
         if cfgs is None:
@@ -204,6 +207,8 @@ class BistHarness(Harness):
         if ph == 1: return [("start",)]
         if ph == 3: return [("inject", m) for m in self.fault_menu(cfg[2])]
         if ph == 5: return []
+        if ph == 6: return [("reset",)]
+        if ph == 7: return [("restart",)]
         bit = self.bits[0] if ph == 2 else self.bits[1]
         dflt = ("t",) + self.default_resp(rs, bit)
         if dev == 0: return [dflt]
@@ -217,6 +222,8 @@ class BistHarness(Harness):
         if ch[0] == "cfg":
             return "configure base=%d words range=%d words length=%d words random_data=%d random_addr=%d (x%d bytes)" % (ch[1:] + (self.bpw,))
         if ch[0] == "start": return "generator start"
+        if ch[0] == "reset": return "checker reset"
+        if ch[0] == "restart": return "checker start (second run, same memory)"
         if ch[0] == "inject": return "corrupt words of positions %s, checker start" % [p for p in range(16) if (ch[1] >> p) & 1]
         if self.port_kind != "native": return "cmd.ready=%d serve=%s" % (ch[1], list(ch[2]))
         return "cmd.ready(gen,chk)=%d%d serve=%s" % (ch[1] & 1, ch[1] >> 1, list(ch[2]))
@@ -229,7 +236,8 @@ class BistHarness(Harness):
             for (ib, ie, il, ird, ira) in self.i_par:
                 I[ib] = b * self.bpw; I[ie] = (b + r) * self.bpw; I[il] = l * self.bpw; I[ird] = rd; I[ira] = ra
         if ph == 1: I[self.i_gstart] = 1
-        if ph == 3: I[self.i_cstart] = 1
+        if ph == 3 or ph == 7: I[self.i_cstart] = 1
+        if ph == 6: I[self.i_creset] = 1
         if ch[0] == "t":
             self.resp.drive(rs, (ch[1], ch[2]), I)
         return tuple(I)
@@ -318,19 +326,24 @@ class BistHarness(Harness):
                 raise fhdl.EngineError("C14 oracle inconsistent: k distinct corrupted words must give k differing positions")
             self.cov_faults.add((cfg, F))
             ph = 4; na = 0; nd = 0; dev = self.D if self.D is not None else -1
-        elif ph == 4:
+        elif ph == 6:
+            ph = 7
+        elif ph == 7:
+            ph = 8; na = 0; nd = 0; dev = self.D if self.D is not None else -1
+        elif ph == 4 or ph == 8:
             if cdone:
                 exp = self.expected_errors(cfg, A, rs2[1]); got = self.r_errors(S, I, O)
                 distinct = len(set(A)) == len(A)
                 if got != exp:
                     self.report("bist.error_count", "checker reports %d errors; %d of the %d positions hold a word different from the generated one (fault set %s, addresses %s)"
                                 % (got, exp, L, [p for p in range(L) if (F >> p) & 1], list(A)), kind="error_count", faithful_memory=bool(F == 0), repeated_addresses=not distinct,
-                                direction="too_many" if got > exp else "too_few")
+                                direction="too_many" if got > exp else "too_few", second_run=bool(ph == 8))
                 self.cov_verdicts.add((cfg, F))
                 if F == 0 and distinct and exp == 0: self.cov_zero.add(cfg)
                 if F and distinct and exp == bin(F).count("1"): self.cov_k.add((cfg, F))
                 if not distinct: self.cov_rep.add((cfg, F))
-                ph = 5; prog = True
+                if ph == 8: self.cov_rerun = getattr(self, "cov_rerun", 0) + 1
+                ph = 6 if (self.rerun and ph == 4) else 5; prog = True
         if coop and ph != 5: ev |= EV_OUT
         if prog: ev |= EV_PROG
         return (ph, cfg, dev, rs2, na, nd, A, F), ev
@@ -342,11 +355,11 @@ class BistHarness(Harness):
     def coverage(self):
         return dict(parameter_tuples=len(self.cov_cfg), generator_runs_completed=len(self.cov_gen), fault_sets_injected=len(self.cov_faults), verdicts=len(self.cov_verdicts),
                     verdicts_faithful_nonrepeating_zero=len(self.cov_zero), verdicts_k_distinct_corrupted_words_k_errors=len(self.cov_k), verdicts_with_repeated_addresses=len(self.cov_rep),
-                    model_selftest_positions=self.positions_checked)
+                    model_selftest_positions=self.positions_checked, second_run_verdicts=getattr(self, "cov_rerun", 0))
 
     def lasso_detail(self, label, cycle_states, loop_choices):
         ph = cycle_states[0][1][0]
-        return dict(kind="generator_never_done" if ph <= 2 else "checker_never_done", data_width=self.dw)
+        return dict(kind="generator_never_done" if ph <= 2 else "checker_never_done", data_width=self.dw, second_run=bool(ph >= 6))
 
 
 def build(**kw): return BistHarness(**kw)
@@ -412,6 +425,9 @@ def configs(tier):
                 add("axi-" + tag + "-faults-D0-r8", dw, param((8,), reg), 0, "all", 0.6 * w * 3, port="axi")
     # deep command queue: the memory accepts more write commands than the DMA writer's 16-entry data FIFO holds before it takes the first
     # data word (many banks queueing behind a refresh), so the writer's FIFO fills up; explicit tuples, default timing
+    # checker run twice (reset + start) over the same memory, all four data/address modes, default timing
+    cs.append((1.0, "dw32-rerun-r4", dict(dw=32, D=0, faults="few", rerun=True, ranges=[4], region="all", bases=[0, 8], modes=[list(x) for x in MODES]), 2_000_000))
+    cs.append((1.0, "dw8-rerun-r2-D1", dict(dw=8, D=1, faults="few", rerun=True, ranges=[2], region="all", bases=[5], modes=[list(x) for x in MODES]), 2_000_000))
     cs.append((1.0, "dw32-deepqueue-len20-24", dict(dw=32, D=0, faults="few", cfgs=[[0, 32, 20, 0, 0], [0, 32, 24, 1, 0]], wmin=22, rmin=6, qmax=26), 2_000_000))
     cs.sort(key=lambda x: -x[0])
     return [(n, k, m) for (_, n, k, m) in cs]
